@@ -70,6 +70,15 @@ def _handcrafted() -> list[dict]:
                 "commonStructs": [{"name": "Cfg", "versions": "0+", "fields": [{"name": "Level", "type": "int32", "versions": "0+", "default": "5"},
                                                                                {"name": "Label", "type": "string", "versions": "0+", "default": "x"}]}],
                 "_constructs": ["handcrafted:tagged-common-struct"], "_origin": "hand-crafted: tagged common-struct fields"})
+    # two definitions of one generator run whose nested structs share a name (names are unique per definition only) and differ in whether
+    # every member has a default - which decides whether the tagged field that holds the struct gets a default of its own
+    for nm, key, dflt in (("TwinAlphaResponse", 9003, True), ("TwinBetaResponse", 9004, False), ("TwinGammaResponse", 9005, True)):
+        member = (lambda n, t: {"name": n, "type": t, "versions": "0+", **({"default": "-1"} if dflt else {})})
+        out.append({"apiKey": key, "type": "response", "name": nm, "validVersions": "0-1", "flexibleVersions": "0+",
+                    "fields": [{"name": "ErrorCode", "type": "int16", "versions": "0+"},
+                               {"name": "CurrentLeader", "type": "LeaderIdAndEpoch", "versions": "0+", "taggedVersions": "0+", "tag": 0,
+                                "fields": [member("LeaderId", "int32"), member("LeaderEpoch", "int32")]}],
+                    "_constructs": ["handcrafted:same-nested-name-across-definitions"], "_origin": "hand-crafted: nested struct name shared across definitions"})
     # more tagged fields than one-byte tag numbers (upstream wants tags contiguous from 0, so large tags mean many fields): tag, count and the
     # order of the section all go beyond the single-byte varint
     out.append({"apiKey": 9002, "type": "request", "name": "ManyTagsRequest", "validVersions": "0", "flexibleVersions": "0+",
